@@ -2,6 +2,7 @@
 //! correspondence K, the request lines for the Lean driver, the implementation's answers, the verdicts of
 //! the model-free oracles and the input statistics.
 mod common;
+mod eval;
 mod front;
 mod gen;
 mod proto;
@@ -24,6 +25,7 @@ fn main() {
         "k4" => front::k4(dir, thorough, seed),
         "k5" => front::k5(dir, thorough, seed),
         "k6" => front::k6(dir, thorough, seed),
+        "k7" => eval::k7(dir, thorough, seed),
         other => {
             eprintln!("unknown correspondence {other}");
             std::process::exit(2);
